@@ -182,6 +182,22 @@ def strategy(draw):
             a, b = b, a
         files[a] += "\n:root { --xf: #8a8a8a; --xb: #101010; }\n.r80 { color: var(--xf); }\n"
         files[b] += "\n.r90 { color: var(--xf, #777777); background-color: var(--xb, #ffffff); }\n.r91 { color: var(--xf); }\n.r92 { color: #999999; background-color: var(--xb); }\n"
+    if len(rels) >= 2 and draw(st.integers(0, 9)) < 6:
+        # a design palette: the same failing text/background pair appears in several files in different notations
+        from vlib.gen import colors as gc
+
+        t, b, _ = draw(gc.pair_near(thresholds=(4.5,), delta_lo=-0.4, delta_hi=-0.05, tight=0.2))
+        spellings = [
+            (f"#{t[0]:02x}{t[1]:02x}{t[2]:02x}", f"#{b[0]:02x}{b[1]:02x}{b[2]:02x}"),
+            (f"rgb({t[0]}, {t[1]}, {t[2]})", f"rgb({b[0]}, {b[1]}, {b[2]})"),
+            (draw(gc.spell(t, kinds=["hsl"], allow_translucent=False))[0], f"#{b[0]:02X}{b[1]:02X}{b[2]:02X}"),
+            (f"#{t[0]:02X}{t[1]:02X}{t[2]:02X}", f"rgb({b[0]},{b[1]},{b[2]})"),
+        ]
+        order = list(draw(st.permutations(range(len(spellings)))))
+        for i, rel in enumerate(rels):
+            ts, bs = spellings[order[i % len(order)]]
+            files[rel] += f"\n.r7{i} {{ color: {ts}; background-color: {bs}; }}\n"
+        cross = True
     foreign = None
     if draw(st.integers(0, 2)) == 0:
         d = draw(st.sampled_from(dirs))
